@@ -7,7 +7,7 @@ EXTENDS Ast, TLC, Json, FiniteSets
 
 CONSTANTS MaxMods, MinMods, Spells, Places
 
-Forms == {"mod", "names"}
+Forms == {"mod", "names", "type"}
 AllSpells == {"plain", "dotslash"}
 AllPlaces == {"early", "late"}
 OnePlain == {"plain"}
@@ -23,12 +23,15 @@ Init == \E n \in MinMods..MaxMods : \E E \in SUBSET AllEdges(n) :
           /\ Connected(n, E)
           /\ \E f \in [E -> Forms], sp \in [E -> Spells], pl \in [E -> Places], bare \in SUBSET (2..(n - 1)) :
                \* a "bare" module exports nothing: it can only be imported as a whole
-               /\ \A e \in E : e[2] \in bare => f[e] = "mod"
+               /\ \A e \in E : e[2] \in bare => f[e] \in {"mod", "type"}
                /\ pr = [n |-> n, edges |-> E, form |-> f, spell |-> sp, place |-> pl, bare |-> bare]
 Next == UNCHANGED pr
 
 -----------------------------------------------------------------------------
 MName(k) == "m" \o ToString(k)
+TName(k) == "T" \o ToString(k)
+(* every module exports a type alias; a "bare" module exports nothing else *)
+TypeExport(k) == [k |-> "alias", n |-> TName(k), ty |-> "int", export |-> TRUE]
 IsCounter(k) == k = pr.n
 Succs(i) == {j \in Mods(pr.n) : <<i, j>> \in pr.edges}
 RECURSIVE Ascending(_, _)
@@ -38,13 +41,17 @@ Ascending(Zs, lo) == IF {x \in Zs : x >= lo} = {} THEN <<>>
 Path(i, j) == (IF pr.spell[<<i, j>>] = "dotslash" THEN "./" ELSE "") \o MName(j)
 ImportOf(i, j) ==
     IF pr.form[<<i, j>>] = "mod" THEN [k |-> "import", form |-> "mod", path |-> Path(i, j), names |-> <<>>]
+    ELSE IF pr.form[<<i, j>>] = "type" THEN [k |-> "import", form |-> "type", path |-> Path(i, j), names |-> <<TName(j)>>]
     ELSE [k |-> "import", form |-> "names", path |-> Path(i, j),
           names |-> IF IsCounter(j) THEN <<"bump", "cur", "count">> ELSE <<"val", "peek">>]
 (* how module i reaches a member of module j, depending on the import form *)
 Member(i, j, name) == IF pr.form[<<i, j>>] = "mod" THEN Fld(V(MName(j)), name) ELSE V(name)
 
 UseOf(i, j) ==
-    IF IsCounter(j) THEN <<Print(Call(Member(i, j, "bump"), <<>>)), Print(Member(i, j, "count")),
+    IF pr.form[<<i, j>>] = "type" THEN
+        <<[k |-> "let", n |-> "t" \o ToString(j), ty |-> TName(j), e |-> I(j), mod |-> FALSE, const |-> FALSE, export |-> FALSE],
+          Print(V("t" \o ToString(j)))>>
+    ELSE IF IsCounter(j) THEN <<Print(Call(Member(i, j, "bump"), <<>>)), Print(Member(i, j, "count")),
                            Print(Call(Member(i, j, "cur"), <<>>))>>
     ELSE IF j \in pr.bare THEN <<>>
     ELSE <<Print(Member(i, j, "val")), Print(Call(Member(i, j, "peek"), <<>>))>>
@@ -54,7 +61,7 @@ Cat(seqs, k) == IF k > Len(seqs) THEN <<>> ELSE seqs[k] \o Cat(seqs, k + 1)
 
 Tag(i, w) == Print(S(MName(i) \o ":" \o w))
 CounterBody ==
-    <<Tag(pr.n, "init"),
+    <<Tag(pr.n, "init"), TypeExport(pr.n),
       [k |-> "let", n |-> "count", ty |-> "int", e |-> I(0), mod |-> FALSE, const |-> FALSE, export |-> TRUE],
       [k |-> "let", n |-> "bump", ty |-> "fn() -> int", mod |-> FALSE, const |-> FALSE, export |-> TRUE,
        e |-> Fn("bump", <<>>, "int", <<Modify("count", Bin("+", V("count"), I(1))), Ret(V("count"))>>)],
@@ -73,7 +80,7 @@ ModBody(i) ==
              early == [k \in 1..Len(ss) |-> IF pr.place[<<i, ss[k]>>] = "early" THEN <<ImportOf(i, ss[k])>> ELSE <<>>]
              late == [k \in 1..Len(ss) |-> IF pr.place[<<i, ss[k]>>] = "late" THEN <<ImportOf(i, ss[k])>> ELSE <<>>]
              uses == [k \in 1..Len(ss) |-> UseOf(i, ss[k])] IN
-         Cat(early, 1) \o <<Tag(i, "start")>> \o Cat(late, 1) \o <<Tag(i, "mid")>> \o Cat(uses, 1)
+         Cat(early, 1) \o <<Tag(i, "start"), TypeExport(i)>> \o Cat(late, 1) \o <<Tag(i, "mid")>> \o Cat(uses, 1)
          \o (IF i \in pr.bare THEN <<>> ELSE
              <<[k |-> "let", n |-> "val", ty |-> "int", e |-> I(100 * i), mod |-> FALSE, const |-> FALSE, export |-> TRUE],
                [k |-> "let", n |-> "peek", ty |-> "fn() -> int", mod |-> FALSE, const |-> FALSE, export |-> TRUE,
